@@ -1165,8 +1165,14 @@ func (fc *funcContext) translateConversion(expr ast.Expr, desiredType types.Type
 				return fc.fixNumber(fc.translateExpr(expr), t)
 			}
 		case isFloat(t):
-			if t.Kind() == types.Float32 && exprType.Underlying().(*types.Basic).Kind() == types.Float64 {
-				return fc.formatExpr("$fround(%e)", expr)
+			if t.Kind() == types.Float32 {
+				switch b := exprType.Underlying().(*types.Basic); {
+				case b.Kind() == types.Float64:
+					return fc.formatExpr("$fround(%e)", expr)
+				case isInteger(b):
+					// Integers wider than 24 bits are not exactly representable.
+					return fc.formatExpr("$fround(%f)", expr)
+				}
 			}
 			return fc.formatExpr("%f", expr)
 		case isComplex(t):
